@@ -11,11 +11,12 @@ from . import common as C
 
 TITLE = "timeout"
 LEVEL = "fault_enumeration"
-RULE = ("case = (input text, expiry point k): the virtual clock advances one tick per read and timeout = k - 0.5 puts the "
-        "expiry between reads k-1 and k; EVERY k up to the number of reads of the unlimited run is enumerated for small "
+RULE = ("case = (input text, expiry point k): the virtual clock advances one tick per clock read AND per unit of work "
+        "(analysis, rule application, scoring), and timeout = k - 0.5 puts the expiry between ticks k-1 and k; EVERY k up to the number of reads of the unlimited run is enumerated for small "
         "inputs (<= 700 reads), stratified k (all k <= 60, then every 7th/37th, plus the last 20) for larger ones, incl. n "
         "repeated ambiguous tokens (3^n candidate sequences). Oracles on the ordered event trace: never raises; yields are "
-        "a prefix of the unlimited run's; ctparse() returns the best of that prefix or an empty result; no work event after "
+        "a prefix of the unlimited run's; ctparse() returns the best of that prefix or an empty result; a deadline check "
+        "called after the expiry must raise (it may not return); no work event after "
         "the deadline check that raised; between two consecutive checks <= 1 pre-filter analysis, <= 1 partial parse "
         "expanded or emitted (identity of the object apply_rule / score_final is called on) and <= |rules| x |matches| "
         "applications and scorings (+|matches| final scorings); timeout=0 never reads the clock in a check. "
@@ -35,12 +36,20 @@ class Trace:
         self.ev = []
         self.now = 0
         self.keep = []   # keeps observed objects alive so that ids stay unique within a run
+        self.start = 0
+        self.timeout = 0
 
     def read(self):
         v = self.now
         self.now += 1
         self.ev.append(("read", v))
         return float(v)
+
+    def work(self, kind, x):
+        """virtual time also passes with work (one tick per analysis / application / scoring), so a deadline can expire
+        between two clock reads even if the code under test reads the clock rarely"""
+        self.now += 1
+        self.ev.append((kind, x))
 
 
 def setup_worker(ctx):
@@ -55,17 +64,22 @@ def setup_worker(ctx):
 
     def timeout_(t):
         f = inner_factory(t)
+        tr0 = st["trace"]
+        if tr0 is not None:
+            tr0.start = tr0.now - 1      # the value the factory has just read
+            tr0.timeout = t
 
         def t_fun():
             tr = st["trace"]
+            before = tr.now if tr is not None else None
             try:
                 f()
             except BaseException as e:
                 if tr is not None:
-                    tr.ev.append(("check", "raise:" + type(e).__name__))
+                    tr.ev.append(("check", "raise:" + type(e).__name__, before))
                 raise
             if tr is not None:
-                tr.ev.append(("check", "ok"))
+                tr.ev.append(("check", "ok", before))
 
         return t_fun
 
@@ -76,7 +90,7 @@ def setup_worker(ctx):
 
     def _filter_rules(self, rules):
         if st["trace"] is not None:
-            st["trace"].ev.append(("analysis", len(self.prod)))
+            st["trace"].work("analysis", len(self.prod))
         return orig_filter(self, rules)
 
     PP._filter_rules = _filter_rules
@@ -96,7 +110,7 @@ def setup_worker(ctx):
     for name, (fn, pats) in list(reg.items()):
         def wrapped(ts, *args, _fn=fn, _name=name):
             if st["trace"] is not None:
-                st["trace"].ev.append(("apply", _name))
+                st["trace"].work("apply", _name)
             return _fn(ts, *args)
         wrapped.__name__ = getattr(fn, "__name__", name)
         reg[name] = (wrapped, pats)
@@ -105,14 +119,14 @@ def setup_worker(ctx):
     class Recording(L.scorer.Scorer):
         def score(self, txt, ts_, pp):
             if st["trace"] is not None:
-                st["trace"].ev.append(("score", "partial"))
+                st["trace"].work("score", "partial")
             return inner.score(txt, ts_, pp)
 
         def score_final(self, txt, ts_, pp, prod):
             if st["trace"] is not None:
                 st["trace"].keep.append(pp)
                 st["trace"].ev.append(("expand", id(pp)))
-                st["trace"].ev.append(("score", "final"))
+                st["trace"].work("score", "final")
             return inner.score_final(txt, ts_, pp, prod)
 
     ctx["c13"]["scorer"] = Recording()
@@ -166,8 +180,12 @@ def check_trace(L, tr, nmatches):
     seg = {"analysis": 0, "apply": 0, "score": 0}
     expanded = set()
     raised = False
-    for kind, x in tr.ev:
+    for e in tr.ev:
+        kind, x = e[0], e[1]
         if kind == "check":
+            if x == "ok" and tr.timeout and e[2] - tr.start > tr.timeout:
+                pr.append(("deadline-check-ignored-expiry", "a deadline check returned although %d ticks had passed since the start (timeout %s)" % (e[2] - tr.start, tr.timeout)))
+                break
             if raised:
                 pr.append(("check-after-raise", "a deadline check ran after one had already raised"))
             if x.startswith("raise"):
@@ -218,7 +236,7 @@ def run_case(case, ctx):
         probs.append(("huge-timeout-differs", "timeout=1e9 gives different yields than timeout=0 (%s)" % errN))
     nreads = trN.now
     probs += [(t, "unlimited run: " + m) for t, m in check_trace(L, trN, nmatches)]
-    if case["mode"] == "all" and nreads <= 700:
+    if case["mode"] == "all" and nreads <= 1200:
         ks = list(range(1, nreads + 2))
     else:
         ks = sorted(set(list(range(1, 61)) + list(range(61, min(nreads, 1500), 7)) + list(range(1500, nreads, 37 if nreads < 20000 else 997)) + list(range(max(1, nreads - 20), nreads + 2))))
@@ -229,7 +247,7 @@ def run_case(case, ctx):
         if err:
             probs.append(("raises", "k=%d: %s" % (k, err)))
             continue
-        if any(e == ("check", "raise:CTParseTimeoutError") for e in tr.ev):
+        if any(e[0] == "check" and e[1] == "raise:CTParseTimeoutError" for e in tr.ev):
             fired += 1
             mon.events["deadline_fired"] += 1
         if out != full[:len(out)]:
